@@ -332,6 +332,12 @@ pub fn check(c: &Case) -> Verdict {
         if si(&d) != si(&ref_d) {
             bad!("stream-differs", "system info differs from the fault-free dump");
         }
+    } else {
+        // what does not come from /proc/cpuinfo must survive the failure of that step
+        let si = |x: &md::Decoded| x.sysinfo.as_ref().map(|s| (s.arch, s.platform_id, s.csd.clone()));
+        if si(&d) != si(&ref_d) {
+            bad!("stream-differs", "system info fields that do not depend on the CPU information step (architecture, platform, OS version) differ from the fault-free dump: {:?} vs {:?}", si(&d), si(&ref_d));
+        }
     }
     // everything else the two dumps record must be equal (normal form), apart from what the failed
     // steps own and what is volatile in this target
